@@ -201,6 +201,81 @@ def exception_sessions(ck, scn, scripts, cpu, schedules, tag):
             ck.oracle_fail('datapoint_contiguous', inp, {'first': bad[:3]}, signature={'parallel': True})
 
 
+def resumed_scenario(ck, tag, fixed=None):
+    """history: an earlier session is interrupted part-way, the build products are gone, the experiment is continued
+    under every scheduler: a continued run needs its (shared) build again before its first process of THIS session"""
+    import shutil
+    from corr import c10
+    rng = ck.rng
+    n = rng.randint(2, 4)
+    n_exe = rng.choice([1, 2, 2])
+    runs = []
+    for i in range(n):
+        r = {'N': rng.randint(2, 3), 'retries': 0, 'exe': rng.randrange(n_exe), 'excl': True}
+        r['ebuild'] = r['exe'] if rng.random() < 0.8 else None
+        if r['ebuild'] is None:
+            del r['ebuild']
+        if rng.random() < 0.3:
+            r['sbuild'] = i
+        runs.append(r)
+    eb = dict((r['exe'], r['ebuild']) for r in runs if r.get('ebuild') is not None)
+    for r in runs:
+        if r['exe'] in eb:
+            r['ebuild'] = eb[r['exe']]
+    scn = {'runs': runs, 'fail_builds': {}}
+    scripts = [[{'rc': 0, 'dps': 1}] * (r['N'] + 2) for r in runs]
+    total = sum(r['N'] for r in runs)
+    stop_at = rng.randint(2, max(2, total - 1))
+    first_sched = rng.choice(['batch', 'round-robin'])
+    if fixed is not None:
+        scn, scripts, stop_at, first_sched = fixed['scn'], fixed['scripts'], fixed['stop_at'], fixed.get('first_sched', 'batch')
+        runs = scn['runs']
+    wd0 = c04._mkwd(ck)
+    first = c10.run_with_interrupt(wd0, scn, {'sched': first_sched, 'scripts': scripts, 'cpu': 1,
+                                              'builds': {}, 'needs_build': True}, stop_at)
+    ck.impl_traces += 1
+    before = first['file']['rows']
+    ck.count('resumed:first session %s' % first['status'])
+    plans = [('batch', []), ('round-robin', [])] + [('random', [rng.randrange(64) for _ in range(80)]) for _ in range(3)]
+    if fixed is not None and fixed.get('sched') not in (None, 'batch'):
+        plans = [('batch', []), (fixed['sched'], fixed.get('choices') or [])]
+    ref = None
+    data_file = os.path.join(wd0, 't.data')
+    saved = open(data_file, 'rb').read() if os.path.exists(data_file) else None
+    for sched, choices in plans:
+        # the same directory (the run identity contains absolute paths): the data file is put back to what the
+        # interrupted session left
+        wd = wd0
+        if saved is None:
+            if os.path.exists(data_file):
+                os.unlink(data_file)
+        else:
+            with open(data_file, 'wb') as f:
+                f.write(saved)
+        sess = {'sched': sched, 'choices': choices, 'scripts': scripts, 'cpu': 1, 'builds': {}, 'needs_build': True}
+        inp = {'kind': 'resumed', 'scn': scn, 'scripts': scripts, 'stop_at': stop_at, 'sched': sched, 'choices': choices,
+               'first_sched': first_sched,
+               'recorded_before': sorted(set((r[0], r[1]) for r in before))}
+        obs = ds.run_session(wd, scn, sess)
+        ck.impl_traces += 1
+        if not session_ok(ck, inp, obs):
+            return
+        obs['file_new'] = obs['file']['rows'][len(before):]
+        ck.case(nontrivial_key=(tag, json.dumps(scn, sort_keys=True), stop_at, sched, str(choices[:10])),
+                sample={'resumed_runs': len(runs), 'stop_at': stop_at, 'sched': sched})
+        if obs.get('unbuilt_starts'):
+            ck.oracle_fail('built_before_first_process_of_the_session', inp, {'starts_without_build': obs['unbuilt_starts']},
+                           signature={'history': 'continued run'})
+        init = [{'maxInv': obs['loaded'][i][0], 'samples': obs['loaded'][i][1]} if i in obs['loaded']
+                else {'maxInv': 0, 'samples': 0} for i in range(len(runs))]
+        op = c04.session_op('c11.session', scn, sess, obs['order'], init=init)
+        c04.queue_of(ck).add(op, lambda ans, inp=inp, obs=obs: c04.compare_session(ck, 'c11.session(resumed)', inp, obs, ans, THEOREMS))
+        if ref is None:
+            ref = obs
+        else:
+            compare_with_batch(ck, inp, ref, obs, sched, 0)
+
+
 def has_127(scripts):
     return any(o.get('rc') == 127 for s in scripts for o in s)
 
@@ -526,6 +601,8 @@ def run_input(ck, inp, tag):
     elif kind in ('parallel', 'parallel-ref'):
         parallel_scenario(ck, inp['scn'], inp['scripts'], inp.get('cpu', 8), [inp.get('schedule') or []], tag,
                           local=inp.get('local', 'batch'))
+    elif kind == 'resumed':
+        resumed_scenario(ck, tag, fixed=inp)
     elif kind == 'parallel-exception':
         exception_sessions(ck, inp['scn'], inp['scripts'], inp.get('cpu', 8), [inp.get('schedule') or []], tag)
     elif kind == 'free':
@@ -625,6 +702,9 @@ def run(ck):
         ck.count('shared-build-one-run-per-worker')
         parallel_scenario(ck, scn, scripts, 16, [[rng.randrange(12) for _ in range(60)] for _ in range(3)],
                           'par-shared-build', local=['batch', 'round-robin', 'random'][i % 3])
+    # (3c'') resumed sessions with builds
+    for i in range(5 if quick else 40):
+        resumed_scenario(ck, 'resumed')
     lap('adapters')
     # (3d) a worker thread ends with an exception: the other workers finish their work, whatever the completion
     #      order, and nothing is running any more when the session returns
